@@ -66,9 +66,11 @@ def run(chk):
                  "class GKennel extends GCrate<GDog> { public constructor() -> GKennel { super(); return this; } }",
                  "class GPlant { public int h = 2; public constructor() -> GPlant = default; }",
                  "class GHouse<T extends GPlant> { public T crop; public constructor(T crop) -> GHouse<T> { this.crop = crop; return this; } }",
+                 "class GDepot { public GBox<GDog> slot; public GHouse<GPlant> hs; public constructor() -> GDepot { this.slot = new GBox<GDog>(new GDog()); this.hs = new GHouse<GPlant>(new GPlant()); return this; } "
+                 "public function take(GBox<GDog> b) -> GBox<GDog> { return b; } public function sum() -> int { return take(slot).it.w + hs.crop.h; } }",
                  "function kennel() -> int { GKennel k = new GKennel(); k.put(new GDog()); GHouse<GPlant> g = new GHouse<GPlant>(new GPlant()); return k.puts + g.crop.h; }",
                  "function main() -> void { echo(kennel()); GLeaf x = new GLeaf(); echo(x.gb); echo(x.gm); echo(x.gl); echo(x.id()); echo(x.tagv()); GBase y = new GLeaf(); echo(y.id()); "
-                 "GBox<GItem> bx = new GBox<GItem>(new GItem()); echo(bx.w()); GMid<string> ms = new GMid<string>(); echo(ms.gm + ms.gb); }"]
+                 "GBox<GItem> bx = new GBox<GItem>(new GItem()); echo(bx.w()); GMid<string> ms = new GMid<string>(); echo(ms.gm + ms.gb); GDepot dp = new GDepot(); echo(dp.sum()); }"]
         ps = perms(rng, len(decls), 4)
         cases.append((["\n".join(decls)] + ["\n".join(decls[i] for i in p) for p in ps], ps, [], False))
     # statics whose initialisers read other classes' statics (in either direction, also cyclically) or call a counting function:
